@@ -821,26 +821,24 @@ theorem writeEnum_spec (E : Ext) (cfg : Cfg) (e : RustEnum) (st : St) (text : St
 
 /-! ## items and the file -/
 
-/-- a use of a generic parameter of the enclosing item -/
-def isGenVar (gens : List Str) : Need → Bool
-  | .typeVar g => gens.contains g
-  | _ => false
-
-/-- the names an item's text uses and the printer accounts for -/
+/-- the names an item's text uses and the printer accounts for.  A type alias (since the `fix:`
+commit 614135b: `G = List[T]`, every generic parameter registered with `add_type_var`): the
+`TypeVar`s of its parameters and the name `TypeVar` of their declarations, and what its type uses —
+uses of a generic parameter included -/
 def itemSafe (E : Ext) (cfg : Cfg) : RustItem → List Need
   | .struct s => structSafe E cfg s
   | .enum e => enumSafe E cfg e
-  | .alias a => (typeNeeds cfg a.genericTypes a.ty).filter fun n => !isGenVar a.genericTypes n
+  | .alias a => a.genericTypes.map Need.typeVar ++ (if a.genericTypes.isEmpty then [] else [impTypeVar]) ++
+      typeNeeds cfg a.genericTypes a.ty
   | .const c => typeNeeds cfg [] c.ty
 
-/-- the names an item's text uses and the printer does *not* account for: the generic parameters
-of a type alias (`G[T] = List[T]` — no `TypeVar` is declared for an alias), and the translation
-functions of defaulted non-`Option` fields of a custom-translated type -/
+/-- the names an item's text uses and the printer does *not* account for: the translation
+functions of defaulted non-`Option` fields of a custom-translated type (nothing for an alias any
+more) -/
 def itemRisky (cfg : Cfg) : RustItem → List Need
   | .struct s => structRisky cfg s
   | .enum e => enumRisky cfg e
-  | .alias a => a.genericTypes.map Need.typeVar ++
-      (typeNeeds cfg a.genericTypes a.ty).filter fun n => isGenVar a.genericTypes n
+  | .alias _ => []
   | .const _ => []
 
 theorem writeItem_spec (E : Ext) (cfg : Cfg) (it : RustItem) (st : St) (text : Str) (st' : St)
@@ -858,12 +856,26 @@ theorem writeItem_spec (E : Ext) (cfg : Cfg) (it : RustItem) (st : St) (text : S
     simp only [Outcome.ok.injEq, Prod.mk.injEq] at h2 h3
     obtain ⟨hm, hc⟩ := formatType_spec cfg a.genericTypes a.ty st ty st2 h1
     rw [← h3.2, ← h2.2]
-    refine ⟨hm, ?_⟩
+    have hm2 := mono_foldl_addTypeVar a.genericTypes st2
+    refine ⟨hm.trans hm2, ?_⟩
     intro n hn
-    simp only [itemSafe, List.mem_filter, Bool.not_eq_true'] at hn
-    rcases hc n hn.1 with h | ⟨g, hg, rfl⟩
-    · exact h
-    · simp [isGenVar, hg] at hn
+    simp only [itemSafe, List.mem_append, List.mem_map] at hn
+    rcases hn with (⟨g, hg, rfl⟩ | hn) | hn
+    · exact (provides_foldl_addTypeVar a.genericTypes st2 g hg).1
+    · split at hn
+      · simp at hn
+      · rename_i hne
+        simp only [List.mem_singleton] at hn
+        subst hn
+        cases hgt : a.genericTypes with
+        | nil => simp [hgt] at hne
+        | cons g gs =>
+          have := (provides_foldl_addTypeVar a.genericTypes st2 g (by simp [hgt])).2
+          rw [hgt] at this
+          exact this
+    · rcases hc n hn with h | ⟨g, hg, rfl⟩
+      · exact hm2 _ h
+      · exact (provides_foldl_addTypeVar a.genericTypes st2 g hg).1
   | const c =>
     simp only [writeItem, constFacts, bind_ok_iff] at h
     obtain ⟨⟨pc, st1⟩, ⟨⟨ty, st2⟩, h1, h2⟩, h3⟩ := h
